@@ -375,6 +375,8 @@ func init() {
 		Gen: func(r *Rng, idx int, tier string) *World {
 			mix := defaultMix
 			mix.reqLo, mix.reqHi = 4, 10
+			poolExtras = true
+			defer func() { poolExtras = false }()
 			return genTableWorld(r, scaleMix(r, mix, tier))
 		},
 		Exec: func(w *World, st *Stats) (*Violation, RunInfo) { return execTable(w, st, c01Oracle{}) },
